@@ -246,3 +246,28 @@ Proof.
   - f_equal. exact Fa.
 Qed.
 End Multi.
+
+(* ---------- every control pattern ---------- *)
+From QV Require Import LinearMcx.
+Lemma xflip_flips pat k l : (forall q, In q l -> k <= q) -> forall b, xflip pat k (flips l b) = flips l (xflip pat k b).
+Proof.
+  induction l as [|q l IH]; intros H b. reflexivity.
+  cbn [flips]. rewrite IH by (intros; apply H; now right). f_equal. apply xflip_flipq. apply H. now left.
+Qed.
+
+Theorem vchain_multi_pattern j nt pat psi b : 1 <= nt -> (1 <= j \/ 2 <= nt) ->
+  srun (vchain (j + 3) nt pat false false) psi b
+  = psi (if pmatch pat (j + 3) b then flips (targets j nt) b else b).
+Proof.
+  intros Hnt Hsp. unfold vchain. replace (j + 3) with (S (S (S j))) at 2 by lia. cbn [negb andb].
+  assert (E : (j =? 0) && (nt <? 2) = false).
+  { destruct Hsp as [H|H]. rewrite (proj2 (Nat.eqb_neq j 0)) by lia. reflexivity.
+    rewrite (proj2 (Nat.ltb_ge nt 2)) by lia. apply andb_false_r. }
+  rewrite E.
+  rewrite !srun_app, xs_sem, (vchain_multi_exact j nt Hnt), xs_sem. unfold all_controls.
+  replace (j + 3) with (j + 3) by reflexivity. rewrite pmatch_xflip.
+  destruct (pmatch pat (j + 3) b).
+  - rewrite <- xflip_flips. now rewrite xflip_invol.
+    intros q Hq. unfold targets in Hq. apply in_map_iff in Hq as [m [<- _]]. lia.
+  - now rewrite xflip_invol.
+Qed.
